@@ -51,6 +51,10 @@ struct Case {
     stamp_keys: Vec<u16>,
     order_keys: Vec<u16>,
     logical_mode: bool,
+    /// Gives record `b` (mapped index) the same timestamp as record `a`: an equal timestamp is
+    /// not "strictly newer", so whichever of the two authentic records arrives second must not
+    /// replace the first.
+    same_stamp: Option<(u16, u16)>,
 }
 
 fn key(node: u8) -> SigningKey {
@@ -147,7 +151,16 @@ struct Prepared {
 }
 
 fn prepare(case: &Case) -> Vec<Prepared> {
-    let ranks = permutation(&case.stamp_keys, case.records.len());
+    let mut ranks = permutation(&case.stamp_keys, case.records.len());
+    if let Some((a, b)) = case.same_stamp {
+        let n = ranks.len();
+        if n >= 2 {
+            let (a, b) = (engine::idx(a, n), engine::idx(b, n));
+            if a != b && case.records[a].node % 3 == case.records[b].node % 3 {
+                ranks[b] = ranks[a];
+            }
+        }
+    }
     case.records
         .iter()
         .zip(ranks)
@@ -231,7 +244,16 @@ fn classify(case: &Case, prepared: &[Prepared], order: &[usize]) -> CaseOk {
             nontrivial = true;
         }
     }
+    let mut equal_stamp_pair = false;
+    for i in 0..prepared.len() {
+        for j in i + 1..prepared.len() {
+            if prepared[i].node == prepared[j].node && prepared[i].ts == prepared[j].ts && prepared[i].authentic && prepared[j].authentic {
+                equal_stamp_pair = true;
+            }
+        }
+    }
     CaseOk::nontrivial(nontrivial)
+        .label_if(equal_stamp_pair, "two_authentic_records_with_equal_timestamp")
         .label_if(case.logical_mode, "ordered_by_logical_part_only")
         .label_if(prepared.iter().any(|p| !p.authentic), "has_forged")
         .label_if(prepared.iter().any(|p| matches!(p.info, TransportInfo::Trusted(_))), "has_trusted")
@@ -313,17 +335,19 @@ fn case(max: usize) -> impl Strategy<Value = Case> {
         prop::collection::vec(any::<u16>(), max),
         prop::collection::vec(any::<u16>(), max),
         prop::bool::weighted(0.3),
+        prop::option::weighted(0.4, (any::<u16>(), any::<u16>())),
     )
-        .prop_map(|(records, stamp_keys, order_keys, logical_mode)| Case {
+        .prop_map(|(records, stamp_keys, order_keys, logical_mode, same_stamp)| Case {
             records,
             stamp_keys,
             order_keys,
             logical_mode,
+            same_stamp,
         })
 }
 
 pub fn run(mut ctx: Ctx) -> ! {
-    ctx.assume("records carry pairwise distinct timestamps (the statement's quantifier); a record signed by the node itself whose address names another endpoint id is not generated (the statement requires the id match only for trusted records)");
+    ctx.assume("records carry pairwise distinct timestamps except one optional equal-timestamp pair (must not replace: only a strictly newer record may); a record signed by the node itself whose address names another endpoint id is not generated (the statement requires the id match only for trusted records)");
     ctx.assume("insert_node_info is a documented local overwrite and is not part of the last-write-wins rule");
     ctx.run_prop(
         Part::new(
